@@ -308,6 +308,10 @@ def check_lossless(facts, out):
             if ev['kind'] != 'fmt':
                 continue
             inits = H.event_inits(facts, ev)
+            for tr in ev.get('traits', []):
+                if tr and tr != 'new_display':
+                    # `{:?}` escapes quotes, control and combining characters; `{:e}`, `{:x}` change the number text
+                    bad.append(('a `%s` format specifier instead of plain `{}`' % tr.replace('new_', ''), ev['ln']))
             for a in ev['args']:
                 nvals += 1
                 for what, ln in lossy_ops(a, inits):
@@ -464,13 +468,9 @@ def check_redundancy_tolerance(facts, out):
         h = facts.hir[p]
         ctx = hp.Ctx(facts, H.binding_inits(h), h)
 
-        def visit(n, anc):
-            if n.get('k') == 'binary' and n.get('op') in ('Lt', 'Le'):
-                a = hp.strip(n['a'])
-                if isinstance(a, dict) and a.get('k') == 'mcall' and a.get('name') == 'abs':
-                    v = ctx.const_value(n['b'])
-                    tol.setdefault(p, []).append(v)
-        H.walk(h['body'], visit)
+        pat = hp.OR(hp.BIN('Lt', hp.M('abs', hp.ANY()), hp.ANY()), hp.BIN('Le', hp.M('abs', hp.ANY()), hp.ANY()))
+        for n, _anc in hp.find(ctx, h['body'], pat):
+            tol.setdefault(p, []).append(ctx.const_value(hp.strip(n)['b']))
     vals = {v for vs in tol.values() for v in vs}
     enc = [p for p in fns if p.startswith('encode::')]
     for p in enc:
